@@ -85,6 +85,21 @@ pub fn parse_share(b: &[u8]) -> Option<PShare> {
     })
 }
 
+/// The genuine share, at point `x`, of the sharing that the t shares in `base` (distinct points) belong to:
+/// every y is the big-integer evaluation of the polynomial through `base`; threshold, C, D, J are the sharing's.
+/// Whoever holds t shares can compute it; a client may also simply have drawn that point.
+pub fn genuine_share_at(base: &[PShare], x: &BigUint) -> PShare {
+    let p = shamir_big::p();
+    let k = base[0].ys.len();
+    let ys: Vec<BigUint> = (0..k)
+        .map(|j| {
+            let pts: Vec<(BigUint, BigUint)> = base.iter().map(|s| (s.x.clone(), s.ys[j].clone())).collect();
+            shamir_big::eval(&shamir_big::interpolate(&pts, &p), x, &p)
+        })
+        .collect();
+    PShare { x: x.clone(), ys, ..base[0].clone() }
+}
+
 pub fn encode_s(x: &BigUint, ys: &[BigUint]) -> Vec<u8> {
     let mut out = Vec::new();
     out.extend_from_slice(&shamir_big::to_le24(x));
